@@ -125,7 +125,10 @@ def main():
             "serves_properties": built,
             "kind_free_text": "hand-written Python explicit-state explorer: input-space enumerator + level-synchronous BFS over the real "
                               "praatio objects with canonical-state de-duplication, reference models compared on every transition, "
-                              "sharded over a fork()ed process pool",
+                              "sharded over a fork()ed process pool; plus a stateless two-thread schedule explorer (every one-preemption "
+                              "interleaving at line granularity under sys.settrace with a semaphore baton) and whole-check re-runs in child "
+                              "processes for other environments (python -O, a process with a past, locale / default encoding); per-case CPU "
+                              "watchdog so that non-termination is an outcome, not a hang",
         }],
         "checks": checks,
         "not_applicable": na,
